@@ -118,10 +118,12 @@ impl SDJWTVerifier {
                 .map_err(|e| Error::DeserializationError(e.to_string()))?,
             None => Algorithm::ES256, // Default or handle as needed
         };
+        let mut validation = Validation::new(algorithm);
+        validation.validate_nbf = true;
         let claims = jsonwebtoken::decode(
             sd_jwt,
             &issuer_public_key,
-            &Validation::new(algorithm),
+            &validation,
         )
             .map_err(|e| Error::DeserializationError(format!("Cannot decode jwt: {}", e)))?
             .claims;
